@@ -23,10 +23,12 @@ TRUST = ("Trusted base: go/packages + go/types + go/ssa (x/tools v0.29.0) faithf
 exec(open(os.path.join(HERE, "tools", "manifest_table.py")).read())
 
 ADD = {
- "C01": " Also decided: every early exit of the Retry loop puts the unattempted entries back; the reconnect loop stops only on request (context done, Disconnect, graceful end); the reader goroutine records the connection error before Done() closes (the loop reads Err() right after it); the context the reconnect loop dials with is rebound to context.Background() at the first success, so the loop outlives the context passed to Connect.",
+ "C01": " Also decided: every early exit of the Retry loop puts the unattempted entries back; the reconnect loop stops only on request (context done, Disconnect, graceful end); the reader goroutine records the connection error before Done() closes (the loop reads Err() right after it); the context the reconnect loop dials with is rebound to context.Background() at the first success, so the loop outlives the context passed to Connect; a task leaves the task queue only by being popped from its front by the task goroutine, and the popped task is executed on every path.",
  "C02": " Also decided: every failure of the QoS 2 exchange after registration carries a retry handle that the error wrappers keep; early exits of the Retry loop put the unattempted entries back.",
  "C04": " Also decided: the Message a PUBLISH is parsed into is a fresh object per packet (a held QoS 2 message cannot be overwritten by the next PUBLISH).",
- "C05": " Also decided: Message.Dup is assigned on every path before the PUBLISH is packed (the DUP bit on the wire is the one decided for this transmission).",
+ "C05": " Also decided: Message.Dup is assigned on every path before the PUBLISH is packed (the DUP bit on the wire is the one decided for this transmission); the inbound identifier is read at the offset right after the topic; the subscription list that re-SUBSCRIBE packets are built from records the requested QoS before BaseClient.Subscribe overwrites it with the granted one.",
+ "C07": " Also decided: a wait shared between the QoS levels has no live case on the waiter of another acknowledgement kind (a PUBACK cannot complete the PUBREC stage).",
+ "C08": " Also decided: the loop in which Resubscribe re-issues its snapshot ends only when the snapshot is exhausted and no iteration skips its request.",
  "C09": " Also decided: every path of the reconnect goroutine to a return passes ctx-done, `disconnected` or Err() == nil; a failed ping makes KeepAlive return a non-nil error and leaves the closed connection with a non-nil Err(); the loop's context is rebound to context.Background() at the first success.",
  "C11": " Also decided: BaseClient.Close closes the transport on every path, and so does Disconnect once DISCONNECT was written; the packet body allocation is bounded by the protocol maximum (a crafted length cannot make the reader wait for gigabytes).",
  "C12": " Also decided: PUBREL is written only by the PUBREL stage of the QoS 2 publish.",
